@@ -316,6 +316,8 @@ func panicClass(v string) string {
 		return "repeat-count"
 	case strings.Contains(v, "closed channel"):
 		return "closed-channel"
+	case strings.HasPrefix(v, "reflect:"):
+		return "reflect"
 	default:
 		return "other"
 	}
@@ -359,7 +361,7 @@ func startWorker(root string) (*worker, error) {
 	}
 
 	cmd := exec.Command(os.Args[0])
-	cmd.Env = append(os.Environ(), "C40_WORKER=1", "C40_WORKER_SCRATCH="+scratch, "HOME="+filepath.Join(scratch, "home"), "GOMAXPROCS=2")
+	cmd.Env = append(os.Environ(), "C40_WORKER=1", "C40_WORKER_SCRATCH="+scratch, "HOME="+filepath.Join(scratch, "home"), "GOMAXPROCS=2", "GOGC=400")
 	cmd.Dir = scratch
 	cmd.ExtraFiles = []*os.File{jr, rw}
 
@@ -608,12 +610,28 @@ func routeCell(route string) string {
 func devKinds(ds []dev) []string {
 	out := []string{}
 	for _, d := range ds {
-		out = append(out, d.Kind)
+		out = append(out, slotKind(d))
 	}
 
 	sort.Strings(out)
 
 	return out
+}
+
+// slotKind names what deviates, for the cell: the slot (path variable,
+// parameter, header by name; body fields as one class), not the value. The
+// value class stays in the witness.
+func slotKind(d dev) string {
+	switch {
+	case strings.HasPrefix(d.Slot, "field:"), strings.HasPrefix(d.Slot, "form:"):
+		return "body-field"
+	case d.Slot == "path":
+		return "path-shape"
+	case d.Slot == "query":
+		return "query-shape"
+	}
+
+	return strings.NewReplacer("...", "", " ", "_").Replace(d.Slot)
 }
 
 func main() {
@@ -716,6 +734,7 @@ type slow struct {
 }
 
 type routeStats struct {
+	Seconds  float64          `json:"worker_seconds"`
 	Cases    int64            `json:"cases"`
 	Reached  int64            `json:"reached_router"`
 	Statuses map[string]int64 `json:"statuses"`
@@ -743,6 +762,7 @@ func (v *verdict) add(o outcome) {
 	}
 
 	rs.Cases++
+	rs.Seconds += float64(res.Micros) / 1e6
 
 	if o.crashLog != "" {
 		v.hits = append(v.hits, hit{k: k, crash: o.crashLog})
@@ -848,7 +868,7 @@ func (v *verdict) finish() {
 				singleHit[ky] = map[string]bool{}
 			}
 
-			singleHit[ky][h.k.Devs[0].Kind] = true
+			singleHit[ky][slotKind(h.k.Devs[0])] = true
 		}
 	}
 
@@ -868,13 +888,13 @@ func (v *verdict) finish() {
 		case baseHit[ky] || anyIdentBase[[2]string{h.k.Route, h.res.Site}]:
 			kind = "well-formed"
 		case len(h.k.Devs) == 1:
-			kind = h.k.Devs[0].Kind
+			kind = slotKind(h.k.Devs[0])
 		default:
 			var alone []string
 
 			for _, d := range h.k.Devs {
-				if singleHit[ky][d.Kind] {
-					alone = append(alone, d.Kind)
+				if singleHit[ky][slotKind(d)] {
+					alone = append(alone, slotKind(d))
 				}
 			}
 
